@@ -269,6 +269,17 @@ type seqType struct{ elem types.Type }
 func (s *seqType) Underlying() types.Type { return s }
 func (s *seqType) String() string         { return "seq[" + s.elem.String() + "]" }
 
+// goTypeNoSeq: like contractType, but "[]T" is the Go slice type.
+func goTypeNoSeq(name string) types.Type {
+	if strings.HasPrefix(name, "[]") {
+		return types.NewSlice(goTypeNoSeq(name[2:]))
+	}
+	if strings.HasPrefix(name, "*") {
+		return types.NewPointer(goTypeNoSeq(name[1:]))
+	}
+	return contractType(name)
+}
+
 func contractType(name string) types.Type {
 	if strings.HasPrefix(name, "[]") {
 		return &seqType{contractType(name[2:])}
@@ -278,7 +289,9 @@ func contractType(name string) types.Type {
 	}
 	if strings.HasPrefix(name, "map[") {
 		if i := strings.Index(name, "]"); i > 0 {
-			return types.NewMap(contractType(name[4:i]), contractType(name[i+1:]))
+			// inside a map the Go type is kept (a slice stays a slice): the map parameter is the real map reference and
+			// its heaps are the real ones; only a top-level "[]T" parameter is a mathematical sequence
+			return types.NewMap(goTypeNoSeq(name[4:i]), goTypeNoSeq(name[i+1:]))
 		}
 	}
 	if q, n, ok := strings.Cut(name, "."); ok && curPkg != nil {
@@ -711,6 +724,14 @@ func (fr *Frame) tr(e ast.Expr, env *Env) Val {
 		}
 		if fn.Name == "concat" {
 			fn.Name = "sconcat"
+		}
+		if fn.Name == "trimleft" && len(x.Args) == 2 {
+			lit, ok := x.Args[1].(*ast.BasicLit)
+			if !ok {
+				panic("trimleft: the cutset must be a string literal")
+			}
+			cs, _ := strconv.Unquote(lit.Value)
+			return Val{fmt.Sprintf("(%s %s)", c.trimLeftFn(cs), fr.tr(x.Args[0], env).T), types.Typ[types.Int]}
 		}
 		if fn.Name == "trimright" && len(x.Args) == 2 {
 			// trimright(s, "cutset"): length of strings.TrimRight(s, cutset) for a constant ASCII cutset
